@@ -264,8 +264,9 @@ def run_main_scenarios(spec, scratch):
                 # C11: T1 then a continuation from the last record (and from a chosen record) against the uninterrupted run
                 cmpx = build_harness('h5_final_compare', scratch, hdf5=True)
                 res = []
-                for nm, extra in (('renorm0', []), ('norenorm', ['--RenormalizeCharge', '-1']), ('renorm7', ['--RenormalizeCharge', '7'])):
-                    common = ['-s', '64', '-N', '100', '-n', '25', '-I', '2e-3', '--SavePhaseSpace', '1'] + extra
+                for nm, extra in (('renorm0', []), ('norenorm', ['--RenormalizeCharge', '-1']), ('renorm7', ['--RenormalizeCharge', '7']),
+                                  ('no_intermediate_output', ['-n', '0', '--SavePhaseSpace', '0'])):      # start file with 2 phase-space records and 1 output record
+                    common = ['-s', '64', '-N', '100'] + ([] if '-n' in extra else ['-n', '25', '--SavePhaseSpace', '1']) + ['-I', '2e-3'] + extra
                     full, rc0, _ = run(common + ['-T', '2'], f'rs_{nm}_full')
                     first, rc1, _ = run(common + ['-T', '1'], f'rs_{nm}_first')
                     cont, rc2, _ = run(common + ['-T', '1', '-i', first], f'rs_{nm}_cont')
